@@ -719,3 +719,348 @@ func execConc(x *fw.Ctx, c Case) {
 		}
 	}
 }
+
+// ---------------------------------------------------------------------------
+// class (re)definition while calls are in flight ("cdag")
+//
+// One goroutine evaluates defclass forms (redefinitions with another
+// superclass list, new classes) while the others call the generic function
+// with instances made before the start. The method table does not change. A
+// call must return what the reference dispatcher gives for the precedence
+// list its argument had before, between or after the definitions: never a
+// mixture, never an internal fault. The precedence lists an instance goes
+// through are obtained by evaluating the same defclass sequence beforehand,
+// sequentially, on a twin set of classes. No logical clock is used, so the
+// harness does not order the goroutines.
+
+func genCDag(r *rand.Rand) Case {
+	ar := 1 + r.IntN(2)
+	c := Case{Kind: "cdag", Fam: "dag", Ar: ar, Note: "cdag-redefine", PSeed: r.Uint64()}
+	onlyNew := r.IntN(3) == 0
+	if onlyNew {
+		c.Note = "cdag-new-classes"
+	}
+	nCls := 3 + r.IntN(3)
+	supers := map[int][]int{}
+	for k := 0; k < nCls; k++ {
+		supers[k] = randSupers(r, k)
+		if 0 < k && len(supers[k]) == 0 && r.IntN(4) != 0 {
+			supers[k] = []int{r.IntN(k)}
+		}
+		c.Pre = append(c.Pre, classOp(k, supers[k]))
+	}
+	for k := 3 + r.IntN(4); 0 < k; k-- {
+		q := allQuals[r.IntN(4)]
+		if k%2 == 1 {
+			q = ref.Primary
+		}
+		sp := make([]int, ar)
+		for i := range sp {
+			if r.IntN(6) == 0 {
+				sp[i] = ref.T
+			} else {
+				sp[i] = r.IntN(nCls)
+			}
+		}
+		c.Pre = append(c.Pre, defOp(q, sp, ref.BodyFlat))
+	}
+	nThr := 3 + r.IntN(5)
+	c.Thr = make([][]string, nThr)
+	top := nCls
+	for k := 2 + r.IntN(5); 0 < k; k-- {
+		if onlyNew || r.IntN(4) == 0 {
+			if top < 9 {
+				c.Thr[0] = append(c.Thr[0], classOp(top, randSupers(r, top)))
+				top++
+			}
+			continue
+		}
+		cl := r.IntN(nCls)
+		sup := randSupers(r, cl)
+		if old := supers[cl]; len(old) == 2 && r.IntN(3) == 0 {
+			sup = []int{old[1], old[0]}
+		}
+		supers[cl] = sup
+		c.Thr[0] = append(c.Thr[0], classOp(cl, sup))
+	}
+	// The callers use instances of classes the definer does not redefine
+	// itself (their superclasses may be redefined): an instance of a class
+	// that is replaced keeps the original class and shares the cache key with
+	// instances of the new one, which is a listed finding of its own.
+	redef := map[int]bool{}
+	for _, s := range c.Thr[0] {
+		redef[parseOp(s).spec[0]] = true
+	}
+	var free []int
+	for k := 0; k < nCls; k++ {
+		if !redef[k] {
+			free = append(free, k)
+		}
+	}
+	if len(free) == 0 {
+		free = []int{nCls - 1}
+		var keep []string
+		for _, s := range c.Thr[0] {
+			if parseOp(s).spec[0] != nCls-1 {
+				keep = append(keep, s)
+			}
+		}
+		c.Thr[0] = keep
+	}
+	for n := 6 + r.IntN(18); 0 < n; n-- {
+		t := 1 + r.IntN(nThr-1)
+		a := make([]int, ar)
+		for i := range a {
+			a[i] = free[r.IntN(len(free))]
+		}
+		c.Thr[t] = append(c.Thr[t], callOp(a))
+	}
+	return c
+}
+
+func execCDag(x *fw.Ctx, c Case) {
+	g, err := newGF("dag", c.Ar)
+	if err != nil {
+		x.Fail("defgeneric-error", "defgeneric failed: %s", err)
+		return
+	}
+	twin := &gfun{name: g.name + "t", fam: "dag/" + g.name + "t", ar: c.Ar, scope: g.scope, orig: map[int]slip.Object{}}
+	st := ref.New()
+	for _, s := range c.Pre {
+		o := parseOp(s)
+		if o.kind == 'K' {
+			for _, w := range []*gfun{g, twin} {
+				if e := w.defclass(o.spec[0], o.supers); e != nil {
+					x.Fail("defclass-error", "%s: %s", s, e)
+					return
+				}
+			}
+			continue
+		}
+		g.ver++
+		m := &ref.Method{Qual: o.qual, Spec: o.spec, Ver: g.ver, Body: o.body}
+		if _, e := sl.Eval(g.scope, defSrc(g.name, g.fam, m)); e != nil {
+			x.Fail("defmethod-error qual="+o.qual, "%s", e)
+			return
+		}
+		st.Define(m)
+	}
+	start := append([]int{}, g.defined...)
+	// the precedence lists the instances made now go through (twin classes)
+	lists := map[int][][]int{}
+	record := func() bool {
+		for _, k := range start {
+			cpl, e := twin.cplOf(twin.orig[k])
+			if e != nil {
+				x.Fail("dag instance-error", "%s", e)
+				return false
+			}
+			dup := false
+			for _, l := range lists[k] {
+				dup = dup || fmt.Sprint(l) == fmt.Sprint(cpl)
+			}
+			if !dup {
+				lists[k] = append(lists[k], cpl)
+			}
+		}
+		return true
+	}
+	if !record() {
+		return
+	}
+	for _, s := range c.Thr[0] {
+		o := parseOp(s)
+		if e := twin.defclass(o.spec[0], o.supers); e != nil {
+			x.Fail("defclass-error", "%s (twin): %s", s, e)
+			return
+		}
+		if !record() {
+			return
+		}
+	}
+	type prepared struct {
+		op    string
+		code  slip.Code
+		cls   []int
+		first slip.Object
+		buf   *[]string
+		got   observed
+	}
+	plan := make([][]*prepared, len(c.Thr))
+	scopes := make([]*slip.Scope, len(c.Thr))
+	for t, ops := range c.Thr {
+		scopes[t] = world.NewScope()
+		for k, s := range ops {
+			o := parseOp(s)
+			p := &prepared{op: s}
+			var src string
+			if o.kind == 'K' {
+				names := make([]string, len(o.supers))
+				for i, sp := range o.supers {
+					names[i] = specName(g.fam, sp)
+				}
+				src = fmt.Sprintf("(defclass %s (%s) ())", specName(g.fam, o.spec[0]), strings.Join(names, " "))
+			} else {
+				var b strings.Builder
+				b.WriteString("(" + g.name)
+				p.cls = o.spec
+				for i, cl := range o.spec {
+					obj, e := g.dagObj(cl, false)
+					if e != nil {
+						x.Fail("dag instance-error", "%s", e)
+						return
+					}
+					if i == 0 {
+						p.first = obj
+						p.buf = expectTrace(obj)
+					}
+					v := fmt.Sprintf("%s%d", params[i], k)
+					scopes[t].Let(slip.Symbol(v), obj)
+					b.WriteString(" " + v)
+				}
+				b.WriteString(")")
+				src = b.String()
+			}
+			if e := sl.Catch(func() { p.code = slip.ReadString(src, scopes[t]) }); e != nil {
+				x.Fail("harness-read", "%s: %s", src, e)
+				return
+			}
+			plan[t] = append(plan[t], p)
+		}
+	}
+	begin := make(chan struct{})
+	var wg, ready sync.WaitGroup
+	for t := range plan {
+		wg.Add(1)
+		ready.Add(1)
+		go func(t int) {
+			defer wg.Done()
+			ps := registerG(c.PSeed, t)
+			defer unregisterG()
+			ready.Done()
+			<-begin
+			for _, p := range plan[t] {
+				switch ps.rng.IntN(4) {
+				case 0:
+					runtime.Gosched()
+				case 1:
+					time.Sleep(time.Duration(ps.rng.IntN(100)) * time.Microsecond)
+				}
+				var res slip.Object
+				p.got.Err = sl.Catch(func() { res = p.code.Eval(scopes[t], nil) })
+				if p.buf != nil {
+					p.got.Trace = *p.buf
+					if p.got.Err == nil {
+						p.got.Value = sl.Show(res)
+					}
+				}
+			}
+		}(t)
+	}
+	ready.Wait()
+	nRegistered.Store(int64(len(plan)))
+	close(begin)
+	wg.Wait()
+	nRegistered.Store(0)
+	for k := range traces {
+		delete(traces, k)
+	}
+	var lines []string
+	for t := range plan {
+		for _, p := range plan[t] {
+			ln := fmt.Sprintf("g%d %s", t, p.op)
+			if p.buf != nil {
+				ln += fmt.Sprintf(" => %v %s", p.got.Trace, p.got.Value)
+			}
+			if p.got.Err != nil {
+				ln += " " + p.got.Err.String()
+			}
+			lines = append(lines, ln)
+		}
+	}
+	x.Observe(map[string]any{"generic": g.name, "methods": st.String(), "history": lines})
+	x.Cover(fmt.Sprintf("cdag:goroutines=%d", len(plan)))
+	for t := range plan {
+		for _, p := range plan[t] {
+			if p.got.Err != nil && p.got.Err.Internal {
+				x.Fail("cdag internal-fault", "%s => %s; methods [%s]; history:\n  %s", p.op, p.got.Err, st, strings.Join(lines, "\n  "))
+				return
+			}
+			if p.buf == nil {
+				x.Cover("cdag:defclass")
+				if p.got.Err != nil {
+					x.Fail("cdag defclass-error", "%s => %s", p.op, p.got.Err)
+					return
+				}
+				continue
+			}
+			x.Cover("calls")
+			x.Cover("cdag:calls")
+			x.CoverN("markers", len(p.got.Trace))
+			// some combination of the lists each argument went through must explain the call
+			ok := false
+			var tried []string
+			var walk func(i int, cpls [][]int)
+			walk = func(i int, cpls [][]int) {
+				if ok {
+					return
+				}
+				if i == len(p.cls) {
+					want := st.DispatchCPL(cpls)
+					if fail, _ := judge(st, want, p.got); fail == "" {
+						ok = true
+					} else if len(tried) < 6 {
+						tried = append(tried, fmt.Sprintf("%v: %v %s%s", cpls, want.Trace, want.Value, want.Err))
+					}
+					return
+				}
+				for _, l := range lists[p.cls[i]] {
+					walk(i+1, append(append([][]int{}, cpls...), l))
+				}
+			}
+			walk(0, nil)
+			if !ok {
+				x.Fail("cdag mixed-call", "call %s ran %v => %s %v: no precedence list its arguments had before, between or after the class definitions [%s] explains it (%s); methods [%s]",
+					p.op, p.got.Trace, p.got.Value, p.got.Err, strings.Join(c.Thr[0], " "), strings.Join(tried, "; "), st)
+			}
+		}
+	}
+	// after the join: new instances of every class, judged against the
+	// precedence lists slip reports now
+	for _, k := range g.defined {
+		cls := make([]int, c.Ar)
+		for i := range cls {
+			cls[i] = k
+		}
+		for rot := 0; rot < c.Ar; rot++ {
+			objs := make([]slip.Object, c.Ar)
+			cpls := make([][]int, c.Ar)
+			for i := range cls {
+				cl := g.defined[(indexIn(g.defined, k)+i*rot)%len(g.defined)]
+				var e *sl.Err
+				if objs[i], e = g.dagObj(cl, false); e == nil {
+					cpls[i], e = g.cplOf(objs[i])
+				}
+				if e != nil {
+					x.Fail("dag instance-error", "%s", e)
+					return
+				}
+			}
+			got := g.callObjs(g.scope, objs)
+			x.Cover("calls")
+			if fail, msg := judge(st, st.DispatchCPL(cpls), got); fail != "" {
+				x.Fail("cdag stale-after-defclass "+fail, "call on new instances (precedence lists %v) after the goroutines were joined, class definitions made while calls were in flight: [%s]; methods [%s]: %s",
+					cpls, strings.Join(c.Thr[0], " "), st, msg)
+			}
+		}
+	}
+}
+
+func indexIn(xs []int, v int) int {
+	for i, e := range xs {
+		if e == v {
+			return i
+		}
+	}
+	return 0
+}
